@@ -427,7 +427,9 @@ def o4b(h, st):
     for b_ in range(3):
         for p_, q_, r_, s_ in itertools.product(range(n), repeat=4):
             e_full = e_full + eri(b_, p_, q_, r_, s_) * two_f[b_][p_, q_, r_, s_] * factor[b_]
-    core, h_a, g_a = SecondQuantizedMolecule._get_active_space_integrals_uhf(mol, 0, hs, gof, [list(focc[0]), list(focc[1])], [list(act[0]), list(act[1])])
+    # (the repository's own folding, under contract C04.O8, as the reference for the folded energy; if it no longer exists under this name this contract is skipped)
+    core, h_a, g_a = h.call("tangelo/toolboxes/molecular_computation/molecule.py", "SecondQuantizedMolecule._get_active_space_integrals_uhf", mol, 0, hs, gof,
+                            [list(focc[0]), list(focc[1])], [list(act[0]), list(act[1])])
     e_act = core
     for s_ in range(2):
         for u, v in itertools.product(range(na[s_]), repeat=2):
